@@ -997,6 +997,45 @@ func (la *lockAnalyzer) summaryOf(obj *types.Func) *lockSummary {
 	}
 	acqOf := func(e exitState) map[string]token.Pos { return e.acq }
 	relOf := func(e exitState) map[string]token.Pos { return e.rel }
+	// an exit on which an optional semaphore's channel is nil says nothing about that semaphore: it goes along with
+	// what the other exits (of the same result) do
+	excuse := func(xs []exitState, pick func(exitState) map[string]token.Pos) {
+		all := map[string]token.Pos{}
+		for _, x := range xs {
+			for k, p := range pick(x) {
+				all[k] = p
+			}
+		}
+		for _, x := range xs {
+			for k, p := range all {
+				if _, has := pick(x)[k]; !has && x.nilK[k] {
+					pick(x)[k] = p
+				}
+			}
+		}
+	}
+	{
+		var ts, fs, os []exitState
+		for _, e := range a {
+			switch e.result {
+			case "true":
+				ts = append(ts, e)
+			case "false":
+				fs = append(fs, e)
+			default:
+				os = append(os, e)
+			}
+		}
+		if boolRes && len(os) == 0 {
+			excuse(ts, acqOf)
+			excuse(fs, acqOf)
+			excuse(ts, relOf)
+			excuse(fs, relOf)
+		} else {
+			excuse(a, acqOf)
+			excuse(a, relOf)
+		}
+	}
 	if acq, ok1 := same(a, acqOf); ok1 {
 		if rel, ok2 := same(a, relOf); ok2 {
 			for k, p := range acq {
@@ -1059,6 +1098,7 @@ type exitState struct {
 	acq    map[string]token.Pos // held at this exit, acquired inside
 	rel    map[string]token.Pos // released inside without having been acquired inside
 	result string               // "true"/"false" for a literal boolean result, "" otherwise
+	nilK   map[string]bool      // token channels that are nil at this exit
 }
 
 // analyzeExits runs the lock dataflow on a wrapper candidate and returns the
@@ -1067,21 +1107,46 @@ func (la *lockAnalyzer) analyzeExits(body *ast.BlockStmt) []exitState {
 	g := cfg.New(body, la.mayReturn)
 	type st struct {
 		acq, rel map[string]token.Pos
+		nilK     map[string]bool // token channels known to be nil on this path (an optional semaphore that is not configured)
 		reached  bool
 	}
 	clone := func(s st) st {
-		n := st{acq: map[string]token.Pos{}, rel: map[string]token.Pos{}, reached: s.reached}
+		n := st{acq: map[string]token.Pos{}, rel: map[string]token.Pos{}, nilK: map[string]bool{}, reached: s.reached}
 		for k, v := range s.acq {
 			n.acq[k] = v
 		}
 		for k, v := range s.rel {
 			n.rel[k] = v
 		}
+		for k, v := range s.nilK {
+			n.nilK[k] = v
+		}
 		return n
 	}
 	in := make([]st, len(g.Blocks))
 	for i := range in {
-		in[i] = st{acq: map[string]token.Pos{}, rel: map[string]token.Pos{}}
+		in[i] = st{acq: map[string]token.Pos{}, rel: map[string]token.Pos{}, nilK: map[string]bool{}}
+	}
+	// nilTest: the block ends in the test `ch == nil` / `ch != nil` on a token channel; which successor has ch nil
+	nilTest := func(b *cfg.Block) (key string, nilSucc int) {
+		if len(b.Succs) != 2 || len(b.Nodes) == 0 {
+			return "", -1
+		}
+		be, ok := b.Nodes[len(b.Nodes)-1].(*ast.BinaryExpr)
+		if !ok || (be.Op != token.EQL && be.Op != token.NEQ) {
+			return "", -1
+		}
+		x, y := ast.Unparen(be.X), ast.Unparen(be.Y)
+		if id, ok := y.(*ast.Ident); !ok || id.Name != "nil" {
+			return "", -1
+		}
+		if !la.isToken(x) {
+			return "", -1
+		}
+		if be.Op == token.EQL {
+			return la.exprKey(x), 0
+		}
+		return la.exprKey(x), 1
 	}
 	in[0].reached = true
 	commStmt := map[ast.Node]bool{}
@@ -1124,8 +1189,14 @@ func (la *lockAnalyzer) analyzeExits(body *ast.BlockStmt) []exitState {
 			if !in[b.Index].reached {
 				continue
 			}
-			out := transfer(b, in[b.Index])
-			for _, s := range b.Succs {
+			out0 := transfer(b, in[b.Index])
+			nk, nsucc := nilTest(b)
+			for si, s := range b.Succs {
+				out := out0
+				if nk != "" && si == nsucc {
+					out = clone(out0)
+					out.nilK[nk] = true
+				}
 				t := &in[s.Index]
 				if !t.reached {
 					*t = clone(out)
@@ -1133,18 +1204,31 @@ func (la *lockAnalyzer) analyzeExits(body *ast.BlockStmt) []exitState {
 					changed = true
 					continue
 				}
-				// paths disagree: not a wrapper
-				if len(t.acq) != len(out.acq) || len(t.rel) != len(out.rel) {
+				// paths disagree: not a wrapper — unless they disagree on a channel that is nil on one of them (there is
+				// nothing to hold then: the other path's state stands for both)
+				merge := func(tm, om map[string]token.Pos) bool {
+					for k, p := range om {
+						if _, ok := tm[k]; !ok {
+							if !t.nilK[k] {
+								return false
+							}
+							tm[k] = p
+							changed = true
+						}
+					}
+					for k := range tm {
+						if _, ok := om[k]; !ok && !out.nilK[k] {
+							return false
+						}
+					}
+					return true
+				}
+				if !merge(t.acq, out.acq) || !merge(t.rel, out.rel) {
 					return nil
 				}
-				for k := range out.acq {
-					if _, ok := t.acq[k]; !ok {
-						return nil
-					}
-				}
-				for k := range out.rel {
-					if _, ok := t.rel[k]; !ok {
-						return nil
+				for k := range t.nilK {
+					if !out.nilK[k] {
+						delete(t.nilK, k)
 					}
 				}
 			}
@@ -1159,7 +1243,7 @@ func (la *lockAnalyzer) analyzeExits(body *ast.BlockStmt) []exitState {
 			continue
 		}
 		out := transfer(b, in[b.Index])
-		e := exitState{acq: out.acq, rel: out.rel}
+		e := exitState{acq: out.acq, rel: out.rel, nilK: out.nilK}
 		if len(b.Nodes) > 0 {
 			if r, ok := b.Nodes[len(b.Nodes)-1].(*ast.ReturnStmt); ok && len(r.Results) == 1 {
 				if id, ok := ast.Unparen(r.Results[0]).(*ast.Ident); ok && (id.Name == "true" || id.Name == "false") {
